@@ -24,6 +24,104 @@ fn build_plugins(n: usize) -> Plugins {
         .expect("grid_search input plugin builds")
 }
 
+/// predicate of the stub plugin on a top-level field of the query
+#[derive(Clone, Debug)]
+enum Pred {
+    Always,
+    HasKey(String),
+    StrEq(String, String),
+}
+/// one plugin of a chain: the real grid_search plugin, or the harness' stub that adds a grid
+/// section to the queries satisfying a predicate (so that a later grid_search meets a
+/// multi-element state in which only some elements, not necessarily the first, expand)
+#[derive(Clone, Debug)]
+enum Stage {
+    Grid,
+    Add(Pred, Value),
+}
+struct AddSection {
+    pred: Pred,
+    section: Value,
+}
+impl InputPlugin for AddSection {
+    fn process(&self, input: &mut Value) -> Result<(), routee_compass::plugin::input::InputPluginError> {
+        if let Value::Object(m) = input {
+            let holds = match &self.pred {
+                Pred::Always => true,
+                Pred::HasKey(k) => m.contains_key(k),
+                Pred::StrEq(k, s) => m.get(k).and_then(|v| v.as_str()) == Some(s.as_str()),
+            };
+            if holds {
+                m.insert("grid_search".to_string(), self.section.clone());
+            }
+        }
+        Ok(())
+    }
+}
+fn build_chain(chain: &[Stage]) -> Plugins {
+    chain
+        .iter()
+        .map(|s| match s {
+            Stage::Grid => build_plugins(1).remove(0),
+            Stage::Add(p, sec) => Arc::new(AddSection { pred: p.clone(), section: sec.clone() }) as Arc<dyn InputPlugin>,
+        })
+        .collect()
+}
+fn grid_n(n: usize) -> Vec<Stage> {
+    vec![Stage::Grid; n]
+}
+fn chain_json(chain: &[Stage]) -> Value {
+    Value::Array(
+        chain
+            .iter()
+            .map(|s| match s {
+                Stage::Grid => json!("grid"),
+                Stage::Add(p, sec) => {
+                    let pj = match p {
+                        Pred::Always => json!(["always"]),
+                        Pred::HasKey(k) => json!(["has", k]),
+                        Pred::StrEq(k, v) => json!(["eq", k, v]),
+                    };
+                    json!({"pred": pj, "section": sec})
+                }
+            })
+            .collect(),
+    )
+}
+fn chain_of_json(v: &Value) -> Vec<Stage> {
+    v.as_array()
+        .unwrap()
+        .iter()
+        .map(|s| {
+            if s.is_string() {
+                Stage::Grid
+            } else {
+                let p = s["pred"].as_array().unwrap();
+                let g = |i: usize| p[i].as_str().unwrap().to_string();
+                let pred = match p[0].as_str().unwrap() {
+                    "always" => Pred::Always,
+                    "has" => Pred::HasKey(g(1)),
+                    _ => Pred::StrEq(g(1), g(2)),
+                };
+                Stage::Add(pred, s["section"].clone())
+            }
+        })
+        .collect()
+}
+fn coq_chain(chain: &[Stage]) -> String {
+    coq_list(chain, |s| match s {
+        Stage::Grid => "GSR.G".to_string(),
+        Stage::Add(p, sec) => {
+            let pc = match p {
+                Pred::Always => "GS.PAlways".to_string(),
+                Pred::HasKey(k) => format!("(GS.PHasKey {})", coq_string(k)),
+                Pred::StrEq(k, v) => format!("(GS.PStrEq {} {})", coq_string(k), coq_string(v)),
+            };
+            format!("GSR.A {} {}", pc, coq_json(sec))
+        }
+    })
+}
+
 fn err_class(e: &Value) -> String {
     let msg = e.get("error").and_then(|m| m.as_str()).unwrap_or("");
     if msg.contains("cannot contain the string") {
@@ -42,10 +140,11 @@ fn err_class(e: &Value) -> String {
 }
 
 /// (ordered payload, sorted payload, outcome class)
-fn run_impl(q: &Value, napply: usize) -> (String, String, String) {
+fn run_impl(q: &Value, chain: &[Stage]) -> (String, String, String) {
+    let chain: Vec<Stage> = chain.to_vec();
     let q2 = q.clone();
     let r = catch(move || {
-        let plugins = build_plugins(napply);
+        let plugins = build_chain(&chain);
         apply_input_plugins(&q2, &plugins)
     });
     match r {
@@ -82,13 +181,26 @@ fn bucket(n: usize) -> &'static str {
 }
 
 fn add_case(cx: &mut Ctx, q: Value, napply: usize, family: &str) {
+    add_chain_case(cx, q, grid_n(napply), family)
+}
+fn add_chain_case(cx: &mut Ctx, q: Value, chain: Vec<Stage>, family: &str) {
     let id = cx.st.next_id();
-    let (ordered, sorted, class) = run_impl(&q, napply);
+    let (ordered, sorted, class) = run_impl(&q, &chain);
+    let napply = chain.iter().filter(|s| matches!(s, Stage::Grid)).count();
+    let has_stub = chain.len() > napply;
     let st = &mut cx.st;
     // ---- histogram of the input distribution
     st.count(&format!("family:{}", family));
     st.count(&format!("outcome:{}", class));
-    st.count(&format!("napply:{}", napply));
+    st.count(&format!("grid_plugins_in_chain:{}", napply));
+    if has_stub {
+        st.count("chain_with_stub_plugin");
+    }
+    if let Some(m) = q.as_object() {
+        if m.keys().any(|k| k != "grid_search" && (k.to_lowercase().contains("grid") || k.contains("search"))) {
+            st.count("extra_field_named_like_the_grid_key");
+        }
+    }
     let mut nontrivial = false;
     match q.get("grid_search") {
         None => st.count("section:none"),
@@ -149,18 +261,19 @@ fn add_case(cx: &mut Ctx, q: Value, napply: usize, family: &str) {
     }
     if nontrivial && !cx.set_mode {
         // (the gridset stream runs the same cases: counted once)
-        st.mark_nontrivial(&format!("{}#{}", q, napply));
+        st.mark_nontrivial(&format!("{}#{}", q, chain_json(&chain)));
     }
-    let desc = json!({"id": id, "family": family, "napply": napply, "query": q});
+    let desc = json!({"id": id, "family": family, "chain": chain_json(&chain), "query": q});
+    let cc = coq_chain(&chain);
     let qc = coq_json(&q);
     if cx.set_mode {
         let terms = vec![
-            format!("GSR.line_spec {} {}", id, qc),
-            format!("GSR.line_model_sorted {} {} {}", id, coq_nat(napply), qc),
+            format!("GSR.line_spec {} {} {}", id, cc, qc),
+            format!("GSR.line_model_sorted {} {} {}", id, cc, qc),
         ];
         st.case(terms, vec![format!("I {} {}", id, sorted)], desc);
     } else {
-        let terms = vec![format!("GSR.line_model {} {} {}", id, coq_nat(napply), qc)];
+        let terms = vec![format!("GSR.line_model {} {} {}", id, cc, qc)];
         st.case(terms, vec![format!("I {} {}", id, ordered)], desc);
     }
 }
@@ -169,6 +282,12 @@ fn add_case(cx: &mut Ctx, q: Value, napply: usize, family: &str) {
 
 const KEYS: [&str; 14] = [
     "a", "b", "c", "x", "y", "model_name", "weights", "origin_x", "destination_y", "k1", "K-2", "name", "z_9", "a.b",
+];
+/// names of extra top-level fields derived from the grid key (prefix / suffix / superstring /
+/// case variants): "all other fields are kept" must hold for them too
+const GRIDLIKE: [&str; 12] = [
+    "grid_search_id", "grid_search_name", "grid_searches", "_grid_search", "my_grid_search", "GRID_SEARCH",
+    "Grid_Search", "grid", "search", "grid_searc", "grid_search.x", "grid search",
 ];
 const WORDS: [&str; 8] = ["d1", "t1", "e1", "2017_CHEVROLET_Bolt", "fast", "short est", "v-1.0", ""];
 
@@ -255,11 +374,71 @@ fn section_of(lens: &[usize], axis_keys: &[String], extra_non_arrays: usize, r: 
 }
 fn query_with(section: Option<Value>, nextra: usize, avoid: &[String], r: &mut Rng) -> Value {
     let mut entries: Vec<(String, Value)> = distinct_keys(r, nextra, avoid).into_iter().map(|k| (k, any_value(r, 2))).collect();
+    if r.chance(1, 3) {
+        let mut names: Vec<&str> = GRIDLIKE.to_vec();
+        r.shuffle(&mut names);
+        for nm in names.into_iter().take(r.range(1, 2) as usize) {
+            let pos = r.below(entries.len() as u64 + 1) as usize;
+            entries.insert(pos, (nm.to_string(), any_value(r, 1)));
+        }
+    }
     if let Some(s) = section {
         let pos = r.below(entries.len() as u64 + 1) as usize;
         entries.insert(pos, ("grid_search".to_string(), s));
     }
     Value::Object(entries.into_iter().collect())
+}
+
+const VEHICLES: [&str; 5] = ["ice", "ev", "phev", "bike", "bus"];
+
+/// a plugin chain with the stub plugin in the middle: the first grid search expands a field of
+/// string options, the stub adds a second grid section to the queries with ONE of the options
+/// (any position), the next grid search expands only those
+fn random_chain_case(r: &mut Rng) -> (Value, Vec<Stage>, &'static str) {
+    let k = (*r.pick(&["vehicle", "model_name", "name", "k1"])).to_string();
+    let nopt = r.range(2, 4) as usize;
+    let mut vs: Vec<&str> = VEHICLES.to_vec();
+    r.shuffle(&mut vs);
+    vs.truncate(nopt);
+    // first section: the string field + 0..2 other small fields, in any key order
+    let nother = r.below(3) as usize;
+    let other_keys = distinct_keys(r, nother, &[k.clone()]);
+    let lens = shape(r, nother, 6);
+    let mut sec1 = match section_of(&lens, &other_keys, 0, r) {
+        Value::Object(m) => m.into_iter().collect::<Vec<(String, Value)>>(),
+        _ => vec![],
+    };
+    let pos = r.below(sec1.len() as u64 + 1) as usize;
+    sec1.insert(pos, (k.clone(), json!(vs)));
+    let sec1 = Value::Object(sec1.into_iter().collect());
+    let ne = r.below(4) as usize;
+    let q = query_with(Some(sec1), ne, &[k.clone()], r);
+    let small_section = |r: &mut Rng| -> Value {
+        let m = r.range(1, 2) as usize;
+        let ks = distinct_keys(r, m, &[k.clone()]);
+        let lens = shape(r, m, 6);
+        let extra = if r.chance(1, 5) { 1 } else { 0 };
+        section_of(&lens, &ks, extra, r)
+    };
+    let pick_pred = |r: &mut Rng| -> Pred {
+        match r.below(10) {
+            0 => Pred::Always,
+            1 => Pred::HasKey((*r.pick(&KEYS)).to_string()),
+            _ => Pred::StrEq(k.clone(), vs[r.below(vs.len() as u64) as usize].to_string()),
+        }
+    };
+    let a1 = Stage::Add(pick_pred(r), small_section(r));
+    let chain = match r.below(20) {
+        0 | 1 => vec![a1, Stage::Grid],
+        2 => vec![Stage::Grid, a1],
+        3 | 4 => vec![Stage::Grid, a1, Stage::Grid, Stage::Grid],
+        5..=8 => {
+            let a2 = Stage::Add(pick_pred(r), small_section(r));
+            vec![Stage::Grid, a1, Stage::Grid, a2, Stage::Grid]
+        }
+        _ => vec![Stage::Grid, a1, Stage::Grid],
+    };
+    (q, chain, "random_chain")
 }
 
 fn random_case(r: &mut Rng) -> (Value, usize, &'static str) {
@@ -398,6 +577,33 @@ fn boundary(cx: &mut Ctx, thorough: bool) {
         add_case(cx, obj(vec![("m", json!(1)), ("grid_search", sec.clone()), ("n", json!(2))]), 1, "key_orders");
         add_case(cx, obj(vec![("m", json!(1)), ("n", json!(2)), ("grid_search", sec)]), 1, "key_orders");
     }
+    // extra top-level fields whose names derive from the grid key: all must be kept
+    add_case(cx, json!({"grid_search_id": 42, "grid_search_name": "sweep-A", "grid_searches": 1, "_grid_search": 2,
+        "GRID_SEARCH": 3, "grid": 4, "grid_search": {"model": ["a", "b"], "x": [1, 2]}, "grid_searc": 5}), 1, "names_like_grid_key");
+    for nm in GRIDLIKE.iter() {
+        add_case(cx, obj(vec![(nm, json!(1)), ("grid_search", json!({"a": [1, 2]})), ("k", json!("v"))]), 1, "names_like_grid_key");
+        add_case(cx, obj(vec![("k", json!("v")), ("grid_search", json!({"a": [{"b": 1}]})), (nm, json!({"a": [1, 2]}))]), 2, "names_like_grid_key");
+    }
+    add_case(cx, json!({"grid_search_id": 42, "my_grid_search": {"a": [1, 2]}, "GRID_SEARCH": {"a": [1]}}), 1, "names_like_grid_key");
+    add_case(cx, json!({"grid_search": {"grid": [1, 2], "GRID_SEARCH": ["x"], "search": [{"grid": 0}, 7]}}), 1, "names_like_grid_key");
+    // plugin chains: grid_search, a stub that adds a grid section to SOME queries, grid_search again
+    let soc = json!({"soc": [0.25, 0.75]});
+    let ev = |v: &str| Stage::Add(Pred::StrEq("vehicle".into(), v.into()), soc.clone());
+    for vs in [json!(["ice", "ev"]), json!(["ev", "ice"]), json!(["ice", "ev", "bike"]), json!(["ice", "bike", "ev"]), json!(["ev"]), json!(["ice"])] {
+        let q = json!({"id": 2, "grid_search": {"vehicle": vs}});
+        add_chain_case(cx, q.clone(), vec![Stage::Grid, ev("ev"), Stage::Grid], "chain_sub_grid");
+        add_chain_case(cx, q.clone(), vec![Stage::Grid, ev("ev"), Stage::Grid, Stage::Grid], "chain_sub_grid");
+        add_chain_case(cx, q, vec![Stage::Grid, ev("ev")], "chain_sub_grid_left_in_place");
+    }
+    let q3 = json!({"grid_search_id": 7, "grid_search": {"vehicle": ["ice", "ev", "bike"], "w": [1, 2]}});
+    add_chain_case(cx, q3.clone(), vec![Stage::Grid, ev("ev"), Stage::Grid, ev("bike"), Stage::Grid], "chain_three_levels");
+    add_chain_case(cx, q3.clone(), vec![Stage::Grid, Stage::Add(Pred::HasKey("w".into()), json!({"o": [{"w": 9}, {"z": 1}]})), Stage::Grid], "chain_all_expand");
+    add_chain_case(cx, q3.clone(), vec![Stage::Grid, Stage::Add(Pred::HasKey("absent".into()), soc.clone()), Stage::Grid], "chain_none_expands");
+    add_chain_case(cx, q3.clone(), vec![Stage::Grid, Stage::Add(Pred::StrEq("vehicle".into(), "bike".into()), json!({"soc": []})), Stage::Grid], "chain_later_query_rejected");
+    add_chain_case(cx, q3.clone(), vec![Stage::Grid, Stage::Add(Pred::StrEq("vehicle".into(), "bike".into()), json!({"soc": ["the grid_search"]})), Stage::Grid], "chain_later_query_rejected");
+    add_chain_case(cx, q3, vec![Stage::Grid, Stage::Add(Pred::StrEq("vehicle".into(), "ev".into()), json!({"soc": 1, "t": "x"})), Stage::Grid], "chain_section_without_arrays");
+    add_chain_case(cx, json!({"k": 1}), vec![Stage::Add(Pred::Always, soc.clone()), Stage::Grid], "chain_stub_first");
+    add_chain_case(cx, json!({"k": 1, "grid_search": {"a": [1, 2]}}), vec![Stage::Add(Pred::Always, soc.clone()), Stage::Grid], "chain_stub_replaces_section");
     // no grid section
     add_case(cx, json!({}), 1, "no_section");
     add_case(cx, json!({"a": [1, 2], "b": {"grid": 1}}), 1, "no_section");
@@ -519,9 +725,12 @@ fn main() {
             None => vec![v["case"].clone()],
         };
         for case in &cases {
-            let napply = case["napply"].as_u64().unwrap_or(1) as usize;
+            let chain = match case.get("chain") {
+                Some(c) if c.is_array() => chain_of_json(c),
+                _ => grid_n(case["napply"].as_u64().unwrap_or(1) as usize),
+            };
             let family = case["family"].as_str().unwrap_or("replay").to_string();
-            add_case(&mut cx, case["query"].clone(), napply, &family);
+            add_chain_case(&mut cx, case["query"].clone(), chain, &family);
         }
         cx.st.finish();
         return;
@@ -530,8 +739,13 @@ fn main() {
     let mut rng = Rng::new(a.seed);
     while cx.st.next_id() < a.n {
         let mut r = rng.fork();
-        let (q, napply, family) = random_case(&mut r);
-        add_case(&mut cx, q, napply, family);
+        if r.chance(1, 5) {
+            let (q, chain, family) = random_chain_case(&mut r);
+            add_chain_case(&mut cx, q, chain, family);
+        } else {
+            let (q, napply, family) = random_case(&mut r);
+            add_case(&mut cx, q, napply, family);
+        }
     }
     cx.st.finish();
 }
